@@ -2,7 +2,7 @@
 import z3
 
 from pyvc.sym import V, mk_int, mk_bool, fresh, fresh_name
-from pyvc.types import TInt, TBytes
+from pyvc.types import TInt, TBytes, TPkt
 
 CTR = 'Ref[Ctr]'
 FRAG = 'Ref[FragmentApp]'
@@ -58,6 +58,9 @@ GHOST = {
     'frag_data_ok': 'Bool',       # each fragment carries exactly the payload octets of its range
     'frag_hdr_ok': 'Bool',        # each fragment, when scheduled, had the right primary block (see hdr_ok)
     'frag_payload': 'Bytes',      # the payload data taken from the bundle being fragmented
+    # what len(<bundle>) returned, per bundle object measured (cb_pkt_len): the size a fragment is given by the contract is
+    # the one measured on that very fragment, not a number remembered from another one
+    'len_meas': 'Dict[Pkt[Bundle], Int]',
 }
 
 
@@ -71,6 +74,10 @@ def cb_pkt_len(eng, v):
     '''len(bundle): the encoded size, an unknown non-negative number (scapy_cbor / cbor2)'''
     r = fresh(TInt, 'enc_len')
     eng.assume(r.z >= 0)
+    cur = eng.st.ghost.get('len_meas')
+    if cur is not None and isinstance(v.t, TPkt) and v.t.layers[0] == 'Bundle' and not eng.spec_mode:
+        t = cur.t
+        eng.st.ghost['len_meas'] = V(t, t.mk(z3.Store(t.dom(cur.z), v.z, True), z3.Store(t.map(cur.z), v.z, r.z)))
     return r
 
 
@@ -164,7 +171,7 @@ FUNCS = {
                   'pkt:PrimaryBlock.crc_type', 'pkt:PrimaryBlock.destination', 'pkt:PrimaryBlock.source',
                   'pkt:PrimaryBlock.report_to', 'pkt:PrimaryBlock.create_ts', 'pkt:PrimaryBlock.lifetime',
                   'ghost.crc_ok', 'ghost.sched_send', 'ghost.frag_off', 'ghost.frag_len', 'ghost.frag_size',
-                  'ghost.frag_data_ok', 'ghost.frag_hdr_ok', 'ghost.frag_payload'],
+                  'ghost.frag_data_ok', 'ghost.frag_hdr_ok', 'ghost.frag_payload', 'ghost.len_meas'],
         locals={'frag_offset': 'Int', 'payload_size': 'Int', 'pyld_size_enc': 'Int', 'mtu': 'Opt[Int]',
                 'payload_data': 'Opt[Bytes]'},
         loops={
@@ -190,13 +197,15 @@ FUNCS = {
                     ('original_primary_kept', 'ctr.bundle == old(ctr.bundle) and eqv(ctr.bundle.primary, old(ctr.bundle.primary)) and '
                                               'ctr.bundle.primary is not None and hdr_src_kept(ctr)'),
                 ],
+                # (puts the measurement map into the loop's write set: len() is otherwise a pure function)
+                ghost_begin=['ghost.len_meas = ghost.len_meas\n'],
                 ghost_end=[
                     'ghost.frag_off = ghost.frag_off + [frag_offset - frag_size]\n'
                     'ghost.frag_len = ghost.frag_len + [length(frag_data)]\n'
                     'ghost.frag_data_ok = ghost.frag_data_ok and frag_data == slice(unwrap(payload_data), frag_offset - frag_size, frag_offset - frag_size + length(frag_data))\n'
                     # the encoding-length rule (ASSUMPTIONS): measured size with an empty payload, minus that empty
                     # byte-string head, plus head and octets of the data now put in
-                    'ghost.frag_size = ghost.frag_size + [non_pyld_size - 1 + hsize(length(frag_data)) + length(frag_data)]\n'
+                    'ghost.frag_size = ghost.frag_size + [lookup(ghost.len_meas, fctr.bundle) - 1 + hsize(length(frag_data)) + length(frag_data)]\n'
                     'ghost.frag_hdr_ok = ghost.frag_hdr_ok and hdr_ok(fctr, ctr, frag_offset - frag_size, payload_size)\n'
                     'ghost.frag_payload = unwrap(payload_data)\n'
                 ],
